@@ -65,8 +65,7 @@ theorem number_value_false : ¬ number_value_stmt := by
   have := h witness1e100001 (by decide)
   have ht : witness1e100001.text = [49, 101, 49, 48, 48, 48, 48, 49] := by decide
   rw [ht, number_value_witness] at this
-  revert this
-  decide
+  cases this
 
 /-! ### encoder then decoder -/
 
